@@ -326,6 +326,11 @@ def r3(ctx):
                     ctx.violation("accessor/%s/not-lstat" % col, ctx.where(GFV, x),
                                   "column %s reads `%s` through %s on a `%s`, not on the entry's lstat record (std::fs::Metadata): "
                                   "the directory entry's own number differs from lstat's for mount points" % (col, acc, cal or "?", rty))
+    helpers = set()
+    # (read off the source as written: a helper introduced later is inlined in the normalised tree)
+    raw_gfv = ctx.prog.raw_hir(GFV)
+    raw_takers = [str(c.get("callee")) for c in (walk_exprs(raw_gfv) if raw_gfv is not None else []) if c["k"] == "MCall" and str(c.get("callee", "")).startswith("searcher::Searcher::")
+                  and sum(1 for y in walk_exprs(c) if y["k"] == "Path" and y.get("rk") == "Fn" and str(y.get("res", "")).startswith("mode::")) == 2]
     for col, (meta_fn, mode_fn) in PERM_COLUMNS.items():
         a = arms.get(col)
         if a is None:
@@ -334,23 +339,31 @@ def r3(ctx):
         fnrefs = [short(x["res"], 1) for x in walk_exprs(a["body"]) if x["k"] == "Path" and x.get("rk") == "Fn"
                   and x["res"].startswith("mode::")]
         n += 1
-        ok = sorted(fnrefs) == sorted([meta_fn, mode_fn]) and "check_file_mode" in arm_names(a["body"])
+        # both predicates are handed to one method of the searcher (check_file_mode on the pinned tree; identified by what
+        # the arms call, so that renaming it or reordering its parameters changes nothing)
+        takers = [str(c.get("callee")) for c in walk_exprs(a["body"]) if c["k"] == "MCall" and str(c.get("callee", "")).startswith("searcher::Searcher::")
+                  and sum(1 for y in walk_exprs(c) if y["k"] == "Path" and y.get("rk") == "Fn" and str(y.get("res", "")).startswith("mode::")) == 2]
+        helpers.update(takers)
+        ok = sorted(fnrefs) == sorted([meta_fn, mode_fn]) and (len(takers) == 1 or (not takers and len(set(raw_takers)) == 1))
         ctx.obligation(ok)
         if not ok:
             ctx.violation("accessor/%s/predicates" % col, ctx.where(GFV, a["body"]),
-                          "column %s passes %s to check_file_mode, expected (mode::%s, mode::%s)" % (col, fnrefs, meta_fn, mode_fn))
+                          "column %s passes %s to the mode helper of the searcher, expected (mode::%s, mode::%s) handed to one method" % (col, fnrefs, meta_fn, mode_fn))
     # check_file_mode applies the u32 predicate to the archive mode and the Metadata predicate to the entry
     # check_file_mode evaluated (finite interpreter) on every state: the entry proper / an archive member with / without a
     # stored mode  x  lstat record available / not: the Metadata predicate is applied to the entry's own lstat record, the u32
     # predicate to the member's own stored mode, and a member without a stored mode answers false - never with the bits of
     # the archive file that contains it
-    ch = ctx.anchor_hir("searcher::Searcher::check_file_mode")
+    helpers.update(raw_takers)
+    CFM = sorted(helpers)[0] if len(helpers) == 1 else "searcher::Searcher::check_file_mode"
+    ch = ctx.anchor_hir(CFM)
     import norm
     import interp
-    cfm = ctx.prog.fn("searcher::Searcher::check_file_mode")
+    cfm = ctx.prog.fn(CFM)
     by_ty = list(zip(cfm["params"], norm.param_types(cfm.get("sig"))))
-    meta_p = [p_["id"] for p_, t_ in by_ty if "Fn(" in t_ and "Metadata" in t_]
-    bits_p = [p_["id"] for p_, t_ in by_ty if "Fn(" in t_ and "Metadata" not in t_ and "u32" in t_]
+    isfn = lambda t_: "Fn(" in t_ or "fn(" in t_
+    meta_p = [p_["id"] for p_, t_ in by_ty if isfn(t_) and "Metadata" in t_]
+    bits_p = [p_["id"] for p_, t_ in by_ty if isfn(t_) and "Metadata" not in t_ and "u32" in t_]
     info_p = [p_["id"] for p_, t_ in by_ty if "FileInfo" in t_]
     self_p = [p_["id"] for p_, t_ in by_ty if "Searcher" in t_]
     problems = []
@@ -390,10 +403,10 @@ def r3(ctx):
                                     (member.replace("-", " "), "available" if lstat else "failing", applied or "no predicate", got, want_applied or "no predicate", want))
     ctx.obligation(not problems)
     if problems:
-        ctx.violation("accessor/check_file_mode", ctx.where("searcher::Searcher::check_file_mode"),
+        ctx.violation("accessor/check_file_mode", ctx.where(CFM),
                       "check_file_mode must apply the Metadata predicate to the entry's lstat record, the u32 predicate to an archive member's own mode, and answer "
                       "false where there is neither: %s" % "; ".join(problems[:3]))
-    ctx.floor(nsc, 6, "states of check_file_mode evaluated", "searcher::Searcher::check_file_mode")
+    ctx.floor(nsc, 6, "states of check_file_mode evaluated", CFM)
     # user / group names
     if "User" in arms:
         for col, need in (("User", ["get_uid", "get_user_by_uid"]), ("Group", ["get_gid", "get_group_by_gid"])):
